@@ -104,3 +104,19 @@ Theorem C04_standalone_update_run_converges : forall s0 h e2,
   Forall silent_pass (snd (run t0 h)) /\ s_fs (fst (run t0 h)) = s_fs s1.
 Proof. exact standalone_replay_after_update. Qed.
 Print Assumptions C04_standalone_update_run_converges.
+
+(* non-vacuity: every theorem of this file that has hypotheses has a concrete, non-trivial instance meeting ALL of them
+   (lemmas <Theorem>_witness / <Theorem>_applied in Proofs/WitnessesP.v); a representative one is restated here *)
+From Snaps Require Import Proofs.WitnessesP.
+Example C04_witnesses :
+  (fresh w04_s0 /\ headers_ok w04_H /\ efs_ok w04_H (s_fs w04_s0) /\
+   Forall hist_op_ok w04_h /\ Forall has_value w04_h /\ Forall rec_ok_upd (snd (run w04_s0 w04_h)) /\
+   Forall (fact_ok w04_H) (facts w04_s0 w04_h) /\ consistent (facts w04_s0 w04_h) /\
+   map o_outcome (snd (run w04_s0 w04_h)) = w04_outcomes) /\
+  (fresh w04_ss0 /\ Forall stand_op_ok w04_sh /\ Forall has_value w04_sh /\
+   Forall rec_ok_upd (snd (run w04_ss0 w04_sh)) /\ sconsistent (sfacts w04_ss0 w04_sh) /\
+   map o_outcome (snd (run w04_ss0 w04_sh)) = w04_soutcomes) /\
+  (Forall wf_entry w04_es /\ wf_entry (w04_tid2, w04_snap) /\ no_collision w04_tid2 w04_es /\
+   ~ In w04_tid2 (split_nl w04_snap) /\ w04_tid2 <> [] /\ w04_tid2 <> endseq /\
+   lookup_entry w04_tid2 w04_es <> None).
+Proof. exact C04_witnesses_all. Qed.
